@@ -1,31 +1,72 @@
 #!/usr/bin/env python3
-"""Assemble /verif/seeded/<id>/ from the sub-agents' deliverables, the confirmation log and the matrix results."""
+"""Assemble /verif/seeded/<id>/ (patch.diff, demo.rs, README.md, meta.json) from the sub-agents' deliverables, the confirmation logs and the
+matrix results, and write the detection table of DESIGN.md section 11 (between the markers)."""
 import json, os, re, shutil, sys, glob
 conf = {}
-for l in open('/tmp/mxout/confirm.log'):
-    m = re.match(r'(C\d\d[AB]): (.*)', l.strip())
-    if m: conf[m.group(1)] = m.group(2)
+for f in glob.glob('/tmp/mxout/confirm*.log') + glob.glob('/verif/seeded/confirm*.log'):
+    for l in open(f):
+        m = re.match(r'((?:R2)?C\d\d[AB]): (.*)', l.strip())
+        if m: conf[m.group(1)] = m.group(2)
 matrix = {}
-for f in sorted(glob.glob('/tmp/mxout/m*.json')):
-    for r in json.load(open(f)):
-        matrix[r['name']] = r
+for f in sorted(glob.glob('/tmp/mxout/m*.json')) + sorted(glob.glob('/verif/seeded/matrix*.json')):
+    try:
+        for r in json.load(open(f)): matrix[r['name']] = r      # later files win
+    except Exception: pass
 props = {json.loads(l)['id']: json.loads(l) for l in open('/verif/properties.jsonl')}
-for name in sorted(conf):
-    pid = name[:3]; ab = name[3]
-    src = f'/tmp/wt/{pid}/MUTANT/{ab}'
-    if not os.path.exists(src + '/patch.diff'): continue
-    dst = f'/verif/seeded/{name}'; os.makedirs(dst, exist_ok=True)
-    for f in ('patch.diff', 'demo.rs', 'README.md'):
-        if os.path.exists(f'{src}/{f}'): shutil.copy(f'{src}/{f}', f'{dst}/{f}')
-    readme = open(f'{src}/README.md').read() if os.path.exists(f'{src}/README.md') else ''
+def needs(readme):
+    ls = [l.strip('-* ').strip() for l in readme.split('\n')]
+    hit = [l for l in ls if re.search(r'(?i)\b(trigger|manifest|needs|only when|only shows|only for|requires)\b', l) and len(l) > 30]
+    return ' '.join(hit[:3])[:700] if hit else ' '.join(ls[:6])[:500]
+rows = []
+for name in sorted(set(conf) | {n for n in matrix if re.match(r'(R2)?C\d\d[AB]$', n)}):
+    r2 = name.startswith('R2'); pid = name[-4:-1]; ab = name[-1]
+    src = f'/tmp/{"wt2" if r2 else "wt"}/{pid}/MUTANT/{ab}'
+    dst = f'/verif/seeded/{name}'
+    if os.path.exists(src + '/patch.diff'):
+        os.makedirs(dst, exist_ok=True)
+        for f in ('patch.diff', 'demo.rs', 'README.md'):
+            if os.path.exists(f'{src}/{f}'): shutil.copy(f'{src}/{f}', f'{dst}/{f}')
+    if not os.path.exists(dst + '/patch.diff'): continue
+    readme = open(f'{dst}/README.md').read() if os.path.exists(f'{dst}/README.md') else ''
     mx = matrix.get(name, {}).get('results', {})
-    meta = dict(id=name, breaks_property=pid, property_title=props[pid]['title'], origin='written by an independent sub-agent that saw only the property text and a scratch worktree of /repo',
-                needs_to_manifest=(re.search(r'(?is)(needs?|manifest|trigger)[^\n]*\n?.{0,600}', readme) or [None])[0] if False else None,
-                description_file='README.md',
-                confirmed=dict(how='tools/confirm_mutant.sh in a scratch worktree: cargo test --workspace --offline with the change; the demo as purl/tests/demo.rs with the change; the demo without it',
-                               result=conf[name]),
-                checks=dict(alarms={p: r['kind'] for p, r in mx.items() if r['kind'] != 'pass'},
+    meta = dict(id=name, breaks_property=pid, property_title=props[pid]['title'],
+                origin='written by an independent sub-agent that saw only the property text and a scratch worktree of /repo' + (' (second round: told which mechanisms to avoid)' if r2 else ''),
+                needs_to_manifest=needs(readme), description_file='README.md',
+                confirmed=dict(how='tools/confirm_mutant.sh in a scratch worktree of /repo: cargo test --workspace --offline with the change applied; the demonstration as purl/tests/demo.rs with the change; the demonstration without it',
+                               result=conf.get(name, 'not re-confirmed')),
+                checks=dict(ran='tools/matrix.py: every registered quick check on a scratch worktree with the change applied (VERIF_REPO)',
+                            alarms={p: r['kind'] for p, r in sorted(mx.items()) if r['kind'] != 'pass'},
                             target_detected=mx.get(pid, {}).get('kind'), target_replay=(mx.get(pid, {}).get('replay') or {}).get('printable')) if mx else None)
-    meta.pop('needs_to_manifest')
     json.dump(meta, open(f'{dst}/meta.json', 'w'), indent=1, ensure_ascii=False)
-print(len(conf), 'mutants written')
+    rows.append((name, pid, meta))
+for name in ['D1', 'D2', 'D3', 'D4']:
+    mx = matrix.get(name, {}).get('results', {})
+    if mx:
+        json.dump(dict(id=name + '-regression', what='reverse patch of the fix: commit', alarms={p: r['kind'] for p, r in sorted(mx.items()) if r['kind'] != 'pass'},
+                       replays={p: (r.get('replay') or {}).get('printable') for p, r in sorted(mx.items()) if r['kind'] == 'input'}),
+                  open(f'/verif/seeded/{name}-regression/meta.json', 'w'), indent=1, ensure_ascii=False)
+harm = {n: matrix[n] for n in matrix if re.match(r'H\d+$', n)}
+# ---- DESIGN table
+lines = ['| change | breaks | target check | replay found by the target check | other checks that alarm (input = with a failing input, nofail = no-failing-input-found) |', '|---|---|---|---|---|']
+for name, pid, meta in rows:
+    c = meta['checks'] or {}
+    al = c.get('alarms', {})
+    other = ' '.join(f'{p}({k})' for p, k in al.items() if p != pid) or '-'
+    rp = (c.get('target_replay') or '-').replace('|', '\\|')[:90]
+    lines.append(f"| {name} | {pid} | {c.get('target_detected') or 'not run'} | `{rp}` | {other} |")
+for name in ['D1', 'D2', 'D3', 'D4']:
+    mx = matrix.get(name, {}).get('results', {})
+    if mx:
+        al = ' '.join(p + '(' + r['kind'] + ')' for p, r in sorted(mx.items()) if r['kind'] != 'pass')
+        lines.append(f"| {name}-regression | (defect of section 6) | - | - | {al} |")
+for name in sorted(harm):
+    mx = harm[name].get('results', {})
+    al = ' '.join(p + '(' + r['kind'] + ')' for p, r in sorted(mx.items()) if r['kind'] != 'pass') or 'none: all 19 checks pass'
+    lines.append(f"| {name} (harmless rewrite) | nothing | - | - | {al} |")
+d = open('/verif/DESIGN.md').read()
+a, b = '<!-- SEEDED-TABLE-BEGIN -->', '<!-- SEEDED-TABLE-END -->'
+if a in d:
+    d = d[:d.index(a) + len(a)] + '\n' + '\n'.join(lines) + '\n' + d[d.index(b):]
+    open('/verif/DESIGN.md', 'w').write(d)
+print(len(rows), 'mutants;', sum(1 for _, pid, m in rows if (m['checks'] or {}).get('target_detected') == 'input'), 'target detected with input;',
+      [n for n, pid, m in rows if (m['checks'] or {}).get('target_detected') not in ('input',)])
